@@ -1062,7 +1062,7 @@ refine_stmt :
 
 optional_refine_body_stmts :
     /* empty */
-    refine_body_stmts
+    | refine_body_stmts
 
 refine_body_stmts  :
     refine_body_stmt | refine_body_stmts refine_body_stmt
